@@ -15,7 +15,7 @@ static const char *KEYS[MAXU] = {"", "a", "b", "cc", "d", "key-with-a-longer-nam
  * whatever compares hashes first and names second only shows a flaw in the name comparison on such a pair */
 static const char *PAIRKEYS[3] = {"session6aa6b62c", "session", "sessio"};
 typedef struct { unsigned char b[8]; size_t n; int kind; } val_t;   /* kind 0 = bytes (put), 1 = string (putstr), 2 = int (putint) */
-static const val_t VAL[4] = {{{1, 0, 2}, 3, 0}, {"hello", 6, 1}, {{1, 0, 3}, 3, 0}, {"42", 3, 2}};   /* v0 and v2: same length, equal up to a NUL byte */
+static const val_t VAL[5] = {{{1, 0, 2}, 3, 0}, {"hello", 6, 1}, {{1, 0, 3}, 3, 0}, {"42", 3, 2}, {{0}, 0, 0}};   /* v0 and v2: same length, equal up to a NUL byte; v4: a value of length 0 (valid pointer, size 0) */
 static int RANGE, U, NV; static size_t EFFRANGE;
 typedef struct { int present[MAXU], val[MAXU]; } model_t;
 static sm_spec_t SP;
@@ -36,7 +36,7 @@ static void canon(qhashtbl_t *t, char *out) {
         int len = 0;
         for (qhashtbl_obj_t *o = t->slots[s]; o && len < 64; o = o->next, len++) {
             int k = keyid(o->name), v = -1;
-            for (int i = 0; i < 4; i++) if (o->size == VAL[i].n && !memcmp(o->data, VAL[i].b, o->size)) v = i;
+            for (int i = 0; i < 5; i++) if (o->size == VAL[i].n && !memcmp(o->data, VAL[i].b, o->size)) v = i;
             p += sprintf(p, "%d:%d ", k, v);
         }
         if (len > n_maxchain) n_maxchain = len;
@@ -111,7 +111,7 @@ static int apply(qhashtbl_t *t, model_t *m, const op_t *op, int check, const cha
     switch (op->kind) {
         case OP_PUT: {
             const val_t *v = &VAL[op->v];
-            char *kb = sm_fresh(KEYS[op->k], kn); void *vb = sm_fresh(v->b, v->n); bool r;
+            char *kb = sm_fresh(KEYS[op->k], kn); void *vb = v->n ? sm_fresh(v->b, v->n) : malloc(0); bool r;
             if (v->kind == 0) r = t->put(t, kb, vb, v->n); else if (v->kind == 1) r = t->putstr(t, kb, vb); else r = t->putint(t, kb, 42);
             sm_scribble(kb, kn); sm_scribble(vb, v->n);
             if (check && !r) vc_viol("map:put-failed", "%s: put returned false", after);
